@@ -396,19 +396,21 @@ impl<Aux> Vm<'_, Aux> {
                     })?;
                 }
                 Instruction::SetProperty => {
-                    let [key, mut instance, value] = self.runtime_data.value_stack.pop_n::<3>();
-                    let table = get_table_mut(&mut instance).map_err(|err| {
-                        payload_to_error(err, *instr_ptr, &self.runtime_data.call_stack)
-                    })?;
-                    table
-                        .insert(key, value)
-                        .map_err(|err| {
+                    // the operands stay on the stack (reachable for the collector) until the
+                    // table is done allocating
+                    let key = self.runtime_data.value_stack.peek_last(0);
+                    let mut instance = self.runtime_data.value_stack.peek_last(1);
+                    let value = self.runtime_data.value_stack.peek_last(2);
+                    let result = get_table_mut(&mut instance).and_then(|table| {
+                        table.insert(key, value).map_err(|err| {
                             debug!("Failed to insert value {:?}", err);
                             ExecutionErrorPayload::OutOfMemory
                         })
-                        .map_err(|err| {
-                            payload_to_error(err, *instr_ptr, &self.runtime_data.call_stack)
-                        })?;
+                    });
+                    self.runtime_data.value_stack.pop_n::<3>();
+                    result.map_err(|err| {
+                        payload_to_error(err, *instr_ptr, &self.runtime_data.call_stack)
+                    })?;
                 }
                 Instruction::BeginForEach => {
                     instr_execution::begin_for_each(self, &program.bytecode, instr_ptr).map_err(
@@ -662,11 +664,16 @@ impl<Aux> Vm<'_, Aux> {
                     payload_to_error(err, *instr_ptr, &self.runtime_data.call_stack)
                 })?,
                 Instruction::NthRow => {
-                    let [i, mut instance] = self.runtime_data.value_stack.pop_n::<2>();
+                    // the table stays on the stack (reachable for the collector) while the row
+                    // is allocated
+                    let i = self.runtime_data.value_stack.peek_last(0);
+                    let mut instance = self.runtime_data.value_stack.peek_last(1);
                     let table = get_table_mut(&mut instance).map_err(|err| {
+                        self.runtime_data.value_stack.pop_n::<2>();
                         payload_to_error(err, *instr_ptr, &self.runtime_data.call_stack)
                     })?;
                     let i = i.as_int().ok_or_else(|| {
+                        self.runtime_data.value_stack.pop_n::<2>();
                         payload_to_error(
                             ExecutionErrorPayload::invalid_argument(
                                 "Input must be an integer".to_string(),
@@ -676,6 +683,7 @@ impl<Aux> Vm<'_, Aux> {
                         )
                     })?;
                     if i < 0 {
+                        self.runtime_data.value_stack.pop_n::<2>();
                         return Err(payload_to_error(
                             ExecutionErrorPayload::invalid_argument(
                                 "Input must be non-negative".to_string(),
@@ -695,27 +703,32 @@ impl<Aux> Vm<'_, Aux> {
                         "Getting row of table"
                     );
 
-                    (|| {
+                    let row = (|| {
                         let mut row = self.init_table()?;
                         let row_table = row.as_table_mut().unwrap();
                         let k = self.init_string("key")?;
                         let v = self.init_string("value")?;
                         row_table.insert(Value::Object(k.0), key)?;
                         row_table.insert(Value::Object(v.0), value)?;
-                        self.stack_push(Value::Object(row.0))?;
-                        Ok(())
-                    })()
-                    .map_err(|err| {
+                        Ok(Value::Object(row.0))
+                    })();
+                    self.runtime_data.value_stack.pop_n::<2>();
+                    let row = row.map_err(|err| {
+                        payload_to_error(err, *instr_ptr, &self.runtime_data.call_stack)
+                    })?;
+                    self.stack_push(row).map_err(|err| {
                         payload_to_error(err, *instr_ptr, &self.runtime_data.call_stack)
                     })?;
                 }
                 Instruction::AppendTable => {
-                    let mut instance = self.stack_pop();
-                    let value = self.stack_pop();
-                    let table = get_table_mut(&mut instance).map_err(|err| {
-                        payload_to_error(err, *instr_ptr, &self.runtime_data.call_stack)
-                    })?;
-                    table.append(value).map_err(|err| {
+                    // the operands stay on the stack (reachable for the collector) until the
+                    // table is done allocating
+                    let mut instance = self.runtime_data.value_stack.peek_last(0);
+                    let value = self.runtime_data.value_stack.peek_last(1);
+                    let result =
+                        get_table_mut(&mut instance).and_then(|table| table.append(value));
+                    self.runtime_data.value_stack.pop_n::<2>();
+                    result.map_err(|err| {
                         payload_to_error(err, *instr_ptr, &self.runtime_data.call_stack)
                     })?;
                 }
